@@ -19,6 +19,10 @@ if grep -q '^verif-hooks' "$REPO/Cargo.toml" 2>/dev/null; then features="--featu
 build_main() { # $1 = profile (release|plain)
   local log="$CARGO_TARGET_DIR/build-$1.log"
   mkdir -p "$CARGO_TARGET_DIR"
+  # first with the optional incremental-Zobrist API (feature zapi); if the tree under test changed
+  # that API, fall back to the build without it (C08 then says which route it used)
+  local f1="--features zapi"; [ -n "$features" ] && f1="--features hooks,zapi"
+  if (cd "$H" && cargo build --offline --profile "$1" $f1 >"$log" 2>&1); then return 0; fi
   if ! (cd "$H" && cargo build --offline --profile "$1" $features >"$log" 2>&1); then
     echo "build of the harness against $REPO failed (profile $1); last lines:"
     tail -n 25 "$log"
